@@ -205,12 +205,24 @@ def matrix_cases() -> List[Dict[str, Any]]:
             if issubclass(c, (core.RotationInstruction, core.ControlledRotationInstruction)):
                 for n, d in [(0, 0), (1, 0), (1, 1), (1, 2), (3, 2), (8, 4), (24, 4), (16, 4), (5, 3), (255, 7), (255, 255), (7, 0), (31, 4), (28, 4)]:
                     out.append({"gate": "matrix", "module": modname, "cls": name, "n": n, "d": d})
+                for n, d in [(1, 1), (3, 2), (24, 4), (7, 0)]:
+                    # the angle given through the public setters of an instruction built with another angle
+                    out.append({"gate": "matrix", "module": modname, "cls": name, "n": n, "d": d, "via": "setters"})
+                    # the library logging at DEBUG while the matrix is computed
+                    out.append({"gate": "matrix", "module": modname, "cls": name, "n": n, "d": d, "log_level": "DEBUG"})
             else:
                 out.append({"gate": "matrix", "module": modname, "cls": name})
     return out
 
 
 def check_matrix(case) -> None:
+    from vlib.loglevel import log_level
+
+    with log_level(case.get("log_level")):
+        _check_matrix(case)
+
+
+def _check_matrix(case) -> None:
     from netqasm.lang.instr import core, nv, vanilla
     from netqasm.lang.operand import Immediate
 
@@ -218,7 +230,18 @@ def check_matrix(case) -> None:
     cls = getattr(mod, case["cls"])
     mn = cls.mnemonic
     sig = f"matrix:{case['module']}:{mn}"
-    if issubclass(cls, core.RotationInstruction):
+    if case.get("via") == "setters" and issubclass(cls, (core.RotationInstruction, core.ControlledRotationInstruction)):
+        if issubclass(cls, core.RotationInstruction):
+            ins = cls(reg=_Q(0), imm0=Immediate(5), imm1=Immediate(3))
+        else:
+            ins = cls(reg0=_Q(0), reg1=_Q(1), imm0=Immediate(5), imm1=Immediate(3))
+        ins.to_matrix()
+        ins.angle_num = Immediate(case["n"])
+        ins.angle_denom = Immediate(case["d"])
+        a_ = qm.angle(case["n"], case["d"])
+        want = qm.rot(mn[-1], a_) if issubclass(cls, core.RotationInstruction) else qm.crot(mn[-1], a_)
+        tgt = None if issubclass(cls, core.RotationInstruction) else qm.rot(mn[-1], a_)
+    elif issubclass(cls, core.RotationInstruction):
         ins = cls(reg=_Q(0), imm0=Immediate(case["n"]), imm1=Immediate(case["d"]))
         want = qm.rot(mn[-1], qm.angle(case["n"], case["d"]))
         tgt = None
